@@ -9,10 +9,10 @@ import OAP.Gen.Facts
 namespace OAP.C08
 open OAP OAP.Reconnect
 
-/-- T2 structure facts, regenerated from go/client on every run (the operations themselves, in source order): reconnect(): old conn closed, waiters failed under their mutex, THEN dial, then auth / resume; the retry loop checks the closed signal at the top and before the callback, hit-max goes through Close; reconnectDial falls back to auth -/
+/-- T2 structure facts, regenerated from go/client on every run (the operations themselves, in source order): reconnect(): old conn closed, waiters failed under their mutex, THEN dial, then auth / resume; the retry loop checks the closed signal at the top and before the callback, hit-max goes through Close; `reconnecting` reads the atomic `recovering` flag BEFORE it asks for the write lock and sets/clears it under that lock together with doReconnectting (D20's repair); reconnectDial falls back to auth -/
 theorem source_order :
     Gen.seq_client_reconnect = ["c.stateMu.Lock", "c.stateMu.Unlock", "c.stateMu.Unlock", "c.RLock", "c.RUnlock", "old.Close", "c.recvsMu.Lock", "close:w.ch", "c.recvsMu.Unlock", "c.dial", "c.stateMu.Lock", "c.stateMu.Unlock", "c.isAuthExpired", "c.auth", "c.reconnectDial"] ∧
-    Gen.seq_client_reconnecting = ["c.closed", "c.Lock", "c.Unlock", "c.Unlock", "go", "defer:send:waitCh", "c.closed", "c.reconnect", "c.closed", "c.afterReconnected", "c.Close", "time.Sleep", "recv:waitCh", "c.Lock", "c.Unlock"] ∧
+    Gen.seq_client_reconnecting = ["c.closed", "atomic.LoadInt32:&c.recovering", "c.Lock", "c.Unlock", "atomic.StoreInt32:&c.recovering=1", "c.Unlock", "go", "defer:send:waitCh", "c.closed", "c.reconnect", "c.closed", "c.afterReconnected", "c.Close", "time.Sleep", "recv:waitCh", "c.Lock", "atomic.StoreInt32:&c.recovering=0", "c.Unlock"] ∧
     Gen.seq_client_reconnectDial = ["c.Do", "c.auth", "c.stateMu.Lock", "c.stateMu.Unlock"] := by
   decide
 
